@@ -105,7 +105,16 @@ func getRSAAlgorithm(keySize int) jose.SignatureAlgorithm {
 		return jose.PS384
 	case rsa4096:
 		return jose.PS512
+	}
+
+	// key sizes below 2048 bits are rejected while the key store is created. For
+	// all other sizes, the algorithm matching the strength of the key is used.
+	switch {
+	case keySize < rsa3072:
+		return jose.PS256
+	case keySize < rsa4096:
+		return jose.PS384
 	default:
-		panic(fmt.Sprintf("unsupported RSA key size: %d", keySize))
+		return jose.PS512
 	}
 }
